@@ -74,10 +74,14 @@ type W1 struct {
 	nonce   uint32
 	Closed  bool // transport Close() has been called
 	CloseStep int
+	// Outstanding[conn][wireID] = call index of a query received and not yet answered.
+	Outstanding map[int]map[uint16]int
+	CheckDupWid bool
+	MaxOutstanding map[int]int // per conn: maximum number of unanswered queries seen
 }
 
 func newW1(rc *RunCtx) *W1 {
-	return &W1{rc: rc, byName: map[string]*Call{}, Replies: map[uint32]ReplyInfo{}}
+	return &W1{rc: rc, byName: map[string]*Call{}, Replies: map[uint32]ReplyInfo{}, Outstanding: map[int]map[uint16]int{}, MaxOutstanding: map[int]int{}}
 }
 
 // NewCall creates a call with a unique question.
@@ -256,6 +260,7 @@ func (w *W1) Serve(opts ServerOpts) func(sc *simnet.Conn) {
 				}
 				if !act.NoReply {
 					b, ri := w.MakeReply(q, info, act.TC, act.Pad)
+					w.onReplied(sc.ID, wid)
 					sc.WriteMsg(b, ri)
 					for i := 0; i < act.Dup; i++ {
 						simrt.Fault("srv_dup")
@@ -293,7 +298,36 @@ func (w *W1) Serve(opts ServerOpts) func(sc *simnet.Conn) {
 	}
 }
 
-func (w *W1) onTx(call *Call, txi int) {}
+func (w *W1) onTx(call *Call, txi int) {
+	tx := call.Txs[txi]
+	m := w.Outstanding[tx.Conn]
+	if m == nil {
+		m = map[uint16]int{}
+		w.Outstanding[tx.Conn] = m
+	}
+	if other, ok := m[tx.WireID]; ok && other != call.Idx && w.CheckDupWid {
+		o := w.Calls[other]
+		if !o.Done && (o.Ctx == nil || o.Ctx.Err() == nil) {
+			w.rc.Fail("duplicate_wire_id_outstanding", "conn %d: wire ID %d assigned to call %d while call %d still waits on it", tx.Conn, tx.WireID, call.Idx, other)
+		}
+	}
+	m[tx.WireID] = call.Idx
+	// count unanswered queries of live calls
+	n := 0
+	for _, ci := range m {
+		_ = ci
+		n++
+	}
+	if n > w.MaxOutstanding[tx.Conn] {
+		w.MaxOutstanding[tx.Conn] = n
+	}
+}
+
+func (w *W1) onReplied(conn int, wid uint16) {
+	if m := w.Outstanding[conn]; m != nil {
+		delete(m, wid)
+	}
+}
 
 // Exchange performs the call on u and records the outcome.
 func (w *W1) Exchange(u upstream.Upstream, c *Call) {
